@@ -298,6 +298,28 @@ def structural(st):
             if r != ('ok', False):
                 st.fail('grid-equality-raised' if r[0] == 'raise' else 'materially-different-grids-compare-equal',
                         {'difference': name, 'exc': str(r[1])}, {'kind': 'structural', 'difference': name, 'order': d}, {'observed': repr(r)})
+    # the same names in another order with the values exchanged: every name now has another value
+    def swapped(which):
+        def one(order):
+            g = hs.Grid(version='2.0', columns=[('a', []), ('b', [])])
+            vals = {'first': 'x', 'second': 'y'}
+            tgt = g.metadata if which == 'metadata' else g.column['a']
+            for k, (name, v) in enumerate(zip(order, ('x', 'y'))):
+                tgt[name] = v
+            g.append({'a': 1.0, 'b': 'p'})
+            return g
+        return one(('m1', 'm2')), one(('m2', 'm1'))
+    for which in ('metadata', 'column-metadata'):
+        g, h = swapped(which)
+        for x, y, d in ((g, h, 'a,b'), (h, g, 'b,a')):
+            st.count('executions')
+            r = ev(lambda: x == y)
+            name = which + '-values-exchanged-between-reordered-names'
+            st.case(('structural', name, d), outcome=(r[0], str(r[1])))
+            if r != ('ok', False):
+                st.fail('grid-equality-raised' if r[0] == 'raise' else 'materially-different-grids-compare-equal',
+                        {'difference': name, 'exc': str(r[1])}, {'kind': 'structural', 'difference': name, 'order': d}, {'observed': repr(r)})
+
     def nested(meta='m', cmeta='u', col='x', val=1.0, rows=1):
         inner = hs.Grid(version='3.0', columns=[(col, [('cm', cmeta)])])
         inner.metadata['im'] = meta
@@ -328,8 +350,72 @@ def structural(st):
                     {'kind': 'structural', 'difference': 'non-grid:' + type(other).__name__, 'order': 'a,b'}, {'eq': repr(r), 'ne': repr(r2)})
 
 
+def history_probes(hs):
+    """(name, make pair, pinned verdict or None).  Date-times with the same wall clock in differently named zones: the same
+    instant in winter, an hour apart in summer — and the other way round for a southern pair."""
+    import datetime
+    import pytz
+
+    def dtgrid(olson, *fields):
+        g = hs.Grid(version='2.0', columns=[('t', [])])
+        g.metadata['at'] = pytz.timezone(olson).localize(datetime.datetime(*fields))
+        g.append({'t': pytz.timezone(olson).localize(datetime.datetime(*fields))})
+        return g
+
+    def numgrid(v, s='x'):
+        g = hs.Grid(version='2.0', columns=[('n', []), ('s', [])])
+        g.append({'n': v, 's': s})
+        return g
+    P = []
+    for a, b in (('Europe/London', 'Africa/Abidjan'), ('America/New_York', 'America/Panama'), ('Europe/Berlin', 'Africa/Lagos'),
+                 ('Australia/Sydney', 'Australia/Brisbane')):
+        for label, fields in (('jan', (2021, 1, 15, 12, 0, 0)), ('jul', (2021, 7, 15, 12, 0, 0))):
+            za, zb = pytz.timezone(a), pytz.timezone(b)
+            same = za.localize(datetime.datetime(*fields)).utcoffset() == zb.localize(datetime.datetime(*fields)).utcoffset()
+            for x, y in ((a, b), (b, a)):
+                P.append(('%s-vs-%s-%s' % (x.split('/')[-1], y.split('/')[-1], label),
+                          (lambda x=x, y=y, fields=fields: (dtgrid(x, *fields), dtgrid(y, *fields))), None if same else False))
+    P.append(('number-equal', lambda: (numgrid(1.0), numgrid(1.0)), True))
+    P.append(('number-differs', lambda: (numgrid(1.0), numgrid(2.0)), False))
+    P.append(('bool-vs-number', lambda: (numgrid(True), numgrid(1.0)), None))
+    P.append(('str-differs', lambda: (numgrid(1.0, 'x'), numgrid(1.0, 'y')), False))
+    P.append(('quantity-units', lambda: (numgrid(hs.Quantity(1.0, 'kg')), numgrid(hs.Quantity(1.0, 'm'))), False))
+    return P
+
+
+def history_independence(st):
+    """== between grids is a function of the two grids: the verdict on every probe pair after every other probe pair (from
+    the import-time module state) is the verdict it gets when it is the first comparison ever made."""
+    import hszinc as hs
+    from mc import modstate
+    P = history_probes(hs)
+    fresh = {}
+    for name, mk, pinned in P:
+        modstate.restore()
+        x, y = mk()
+        fresh[name] = (ev(lambda: x == y), ev(lambda: x != y))
+        st.count('executions')
+        if fresh[name][0][0] != 'ok' or fresh[name][1] != ('ok', not fresh[name][0][1]) or (pinned is not None and fresh[name][0][1] is not pinned):
+            st.fail('grid-equality-raised' if 'raise' in (fresh[name][0][0], fresh[name][1][0]) else
+                    ('materially-different-grids-compare-equal' if pinned is False else 'grid-equality-wrong-on-probe'),
+                    {'difference': 'probe:' + name}, {'kind': 'history', 'first': None, 'second': name}, {'observed': repr(fresh[name])})
+    for n1, mk1, _ in P:
+        for n2, mk2, _ in P:
+            modstate.restore()
+            a, b = mk1()
+            ev(lambda: a == b)
+            x, y = mk2()
+            got = (ev(lambda: x == y), ev(lambda: x != y))
+            st.count('executions')
+            st.case(('history', n1, n2), outcome=('history', got == fresh[n2]))
+            if got != fresh[n2]:
+                st.fail('grid-equality-depends-on-earlier-comparisons', {'second': n2.split('-')[-1], 'kind': 'dt' if '-vs-' in n2 else 'other'},
+                        {'kind': 'history', 'first': n1, 'second': n2}, {'as_first_comparison': repr(fresh[n2]), 'after_' + n1: repr(got)})
+
+
 def run(ctx):
     st = Stats()
+    history_independence(st)
     names = [e.name for e in entries()]
     rng = seeded_rng(ctx.seed, 'c19')
     rows = list(names)
@@ -362,7 +448,7 @@ def run(ctx):
         'stats': st, 'exhaustive': True,
         'rule': 'complete enumeration: all ordered pairs over %d catalogue values (==, !=, reflected ==, hash, copy/deepcopy/rebuilt), all triples over '
                 '%d kind representatives, every (version, slot, v) grid against its copy, its ZINC and JSON round trips and g(w) for every w of '
-                '%d values, 9 single structural differences in both orders, grids against non-grids; distinct = distinct tuple; non-trivial = the '
+                '%d values, single structural differences in both orders, grids against non-grids, every ordered pair of 21 probe comparisons (date-times with one wall clock in two zones, winter and summer) from the import-time module state; distinct = distinct tuple; non-trivial = the '
                 'two operands are different catalogue entries' % (len(names), len(reps), len(others)),
         'coverage': {'bounds': {'values': len(names), 'pairs': len(names) ** 2, 'triples': len(reps) ** 3, 'grid_cases': len(items), 'grid_partners': len(others)}},
         'assumptions': ['not pinned (tolerated either way): bool vs number (Python numeric tower), NaN payloads, date-times denoting one instant in '
@@ -383,5 +469,11 @@ def replay(case, st):
     elif k == 'grid':
         w = case['w']
         st.merge(grid_task([(case['ver'], case['slot'], case['v'])], [] if w.startswith(('copy', 'roundtrip')) else [w]))
+    elif k == 'history':
+        sub = Stats()
+        history_independence(sub)
+        for f in sub.failures:
+            if f['case'].get('second') == case['second'] and f['case'].get('first') == case['first']:
+                st.fail(f['symptom'], f['sig'], f['case'], f['detail'])
     else:
         structural(st)
